@@ -258,3 +258,43 @@ func VP_C13_save_roundtrip() {
 	vp.Assert(c2.HeightMaps.OceanFloor.Get(0) == c.HeightMaps.OceanFloor.Get(0) && c2.HeightMaps.OceanFloor.Get(255) == c.HeightMaps.OceanFloor.Get(255), "save round trip: height maps")
 	vp.Cover("end")
 }
+
+// several block entities, with and without NBT data in every order: each comes
+// back with its own coordinates, type and data (a decoder reusing one scratch
+// entity must not leak fields from one to the next), and writing the chunk that
+// was read gives the same bytes again.
+func VP_C13_block_entities() {
+	src := EmptyChunk(1)
+	n := 2 + vp.Choice(2)
+	for i := 0; i < n; i++ {
+		var be BlockEntity
+		be.PackXZ(i, 15-i)
+		be.Y = vp.Int16()
+		be.Type = block.EntityType(vp.Byte() & 0x7f) // one-byte ids (the id range is C05's subject)
+		if vp.Choice(2) == 1 {
+			be.Data = nbt.RawMessage{Type: nbt.TagCompound, Data: []byte{nbt.TagByte, 0, 1, 'k', vp.Byte(), 0}}
+		}
+		src.BlockEntity = append(src.BlockEntity, be)
+	}
+	var w bytes.Buffer
+	_, err := src.WriteTo(&w)
+	vp.Assert(err == nil, "WriteTo err==nil")
+	vp.SizeBound(300)
+	dst := EmptyChunk(1)
+	if vp.Choice(2) == 1 {
+		dst.BlockEntity = []BlockEntity{{Y: 7, Data: nbt.RawMessage{Type: nbt.TagCompound, Data: []byte{0}}}} // used before
+	}
+	r := bytes.NewReader(append(append([]byte{}, w.Bytes()...), 0xEE))
+	_, err = dst.ReadFrom(r)
+	vp.Assert(err == nil && r.Len() == 1, "reading consumes exactly the bytes written")
+	vp.Assert(len(dst.BlockEntity) == n, "block entities preserved")
+	for i := 0; i < n && i < len(dst.BlockEntity); i++ {
+		a, b := src.BlockEntity[i], dst.BlockEntity[i]
+		vp.Assert(a.XZ == b.XZ && a.Y == b.Y && a.Type == b.Type, "block entities preserved")
+		vp.Assert(a.Data.Type == b.Data.Type && string(a.Data.Data) == string(b.Data.Data), "block entity data preserved")
+	}
+	var w2 bytes.Buffer
+	_, err = dst.WriteTo(&w2)
+	vp.Assert(err == nil && string(w2.Bytes()) == string(w.Bytes()), "the chunk that was read writes the same bytes")
+	vp.Cover("end")
+}
